@@ -1327,6 +1327,47 @@ func (e *env) headerChainKnownBad() {
 	}
 }
 
+// testnet3: calcDifficultyTestnet3 (export hook) on the lattice of its thresholds: block delta and grandparent delta
+// (taken, as in the code, as grandparent - parent) at 9/10/11, 19/20/21, 99/100/101 and negative, difficulties 0, 999,
+// 1000, 1001, odd/even, negative; nil grandparent.  Oracle: the four-case rule restated independently.
+func (e *env) testnet3() {
+	c := e.c
+	cfg := params.Testnet3ChainConfig
+	deltas := []int64{-50, -1, 0, 1, 9, 10, 11, 19, 20, 21, 22, 99, 100, 101, 102, 5000}
+	diffs := []int64{0, 1, 999, 1000, 1001, 2001, 46039386, 46039387, -7}
+	for _, d := range deltas {
+		for _, gd := range deltas {
+			pd := big.NewInt(diffs[c.Rng.Intn(len(diffs))])
+			pt := int64(1000000)
+			p := baseHeader(c.Rng, cfg, 50, pt, pd, common.Hash{1}, 5000000)
+			gp := baseHeader(c.Rng, cfg, 49, pt+gd, big.NewInt(7), common.Hash{2}, 5000000)
+			var given *types.Header = gp
+			if c.Rng.Chance(8) {
+				given = nil
+			}
+			t := uint64(pt + d)
+			got := aquahash.VerifCalcDifficultyTestnet3(t, p, given)
+			cas := fmt.Sprintf("testnet3 %d %s %s", t, hdrTok(p, 0), hdrTok(given, 0))
+			c.Eval("difficulty/testnet3", fmt.Sprintf("t3/%d/%d/%s", d, gd, pd))
+			c.Correspond("calcDifficultyTestnet3~calc_testnet3", cas, bigHex(got), e.m.Ask(cas))
+			want := new(big.Int).Set(pd)
+			if given != nil {
+				switch {
+				case d < 10 && gd < 10:
+					want.Add(pd, big.NewInt(1000))
+				case d > 20 && gd > 20:
+					want.Sub(pd, big.NewInt(1000))
+				case d > 100 && gd > 100:
+					want.Quo(pd, big.NewInt(2))
+				}
+			}
+			if want.Cmp(got) != 0 {
+				c.Violate("testnet3-rule/"+cas, "calcDifficultyTestnet3 differs from its four-case rule", map[string]string{"case": cas, "got": got.String(), "want": want.String()})
+			}
+		}
+	}
+}
+
 // ---------------------------------------------------------------- 1. CalcDifficulty lattice
 
 // monotone: the defined forks are scheduled in increasing order of their index
@@ -1377,6 +1418,31 @@ func (e *env) checkDifficulty(name string, cfg *params.ChainConfig, t uint64, p,
 	case wp || want.Cmp(got) != 0:
 		c.Violate("difficulty-spec/"+cas, "CalcDifficulty differs from the fork table", map[string]string{"case": cas, "got": got.String(), "want": fmt.Sprint(want)})
 		return
+	}
+	// size of one step (independent of the table): simple rule within parent/divisor, homestead rules within +parent/2048, -99*(parent/2048)
+	if p.Difficulty.Sign() >= 0 && int64(t) >= p.Time.Int64() && (algo == "simple" || algo == "homestead") {
+		div := int64(2048)
+		if algo == "simple" {
+			if active(cfg, 5, nx) {
+				div = 16
+			}
+			if active(cfg, 6, nx) {
+				div = 128
+			}
+			if active(cfg, 8, nx) {
+				div = 1024
+			}
+		}
+		q := new(big.Int).Div(p.Difficulty, big.NewInt(div))
+		down := new(big.Int).Set(q)
+		if algo == "homestead" {
+			down.Mul(q, big.NewInt(99))
+		}
+		lo, hi := new(big.Int).Sub(p.Difficulty, down), new(big.Int).Add(p.Difficulty, q)
+		if got.Cmp(lo) < 0 || (got.Cmp(hi) > 0 && got.Cmp(big.NewInt(30959185800)) > 0) {
+			c.Violate("difficulty-step-bound/"+cas, "one block moves the difficulty by more than the rule's bound", map[string]string{"case": cas, "got": got.String(), "lower": lo.String(), "upper": hi.String(), "rule": algo})
+			return
+		}
 	}
 	// never below the active minimum (the minimum of the highest of HF1/HF3/HF5 active at the block)
 	if p.Difficulty.Sign() < 0 {
@@ -1904,6 +1970,46 @@ func (e *env) checkBatchOnce(c recorder, kind, cfgName string, ch *fakeChain, se
 			c.viol("batch-order/"+cas, "VerifyHeaders delivered results differ from the per-index worker results", map[string]string{"case": cas, "got": strings.Join(got, ","), "want": want})
 		}
 	}
+	// (b') abort: the caller reads j results and closes abort.  What it has read must be the first j per-index results
+	// (prefix property); whether further results still arrive depends on timing and is not judged.  Model: the collector
+	// under the in-order schedule for j indices, then the abort event, then the remaining events (ignored).
+	if len(seg) >= 2 {
+		j := 1 + rng.Intn(len(seg)-1)
+		abortCh, results := eng.VerifyHeaders(ch, seg, seals)
+		var got []string
+		for k := 0; k < j; k++ {
+			select {
+			case err := <-results:
+				got = append(got, classify(err))
+			case <-time.After(20 * time.Second):
+				got = append(got, "timeout")
+			}
+		}
+		close(abortCh)
+		undecided := false
+		for _, g := range got {
+			if g == "timeout" {
+				undecided = true // a loaded machine: count, do not judge
+			}
+		}
+		if undecided {
+			c.count("batch-abort/undecided-timeout")
+		} else {
+			ev := []string{}
+			for k := 0; k < j; k++ {
+				ev = append(ev, "D", fmt.Sprintf("C%d", k))
+			}
+			ev = append(ev, "A")
+			for k := j; k < len(seg); k++ {
+				ev = append(ev, "D", fmt.Sprintf("C%d", k))
+			}
+			cas := fmt.Sprintf("abatch %s %d %s %s %s %s", ct, now, chainTok, segTok, sb, strings.Join(ev, ","))
+			c.corr("VerifyHeaders+abort~abatch_results", cas, strings.Join(got, ",")+"|aborted", e.m.Ask(cas))
+			if strings.Join(got, ",") != strings.Join(workerObs[:j], ",") {
+				c.viol("batch-abort-prefix/"+cas, "the results read before closing abort are not the first results of the un-aborted batch", map[string]string{"case": cas, "got": strings.Join(got, ","), "want": strings.Join(workerObs[:j], ",")})
+			}
+		}
+	}
 	// (c) direct oracle: one-by-one VerifyHeader, inserting accepted headers, reports the same first failure
 	seqCh := ch.clone()
 	seqIdx, seqRes := -1, ""
@@ -2338,6 +2444,7 @@ func main() {
 	e.headerChainKnownBad()
 	c.Note("headerChainImport took %.1fs", time.Since(t1).Seconds())
 	e.versions()
+	e.testnet3()
 	e.difficultyLattice()
 	e.headerRules()
 	e.batches()
